@@ -6,32 +6,29 @@ from vlib import Check, tlc, harness, OUT
 
 
 def _lts(tier, ck):
-    """Exhaustive LTS of the quick instance; thorough adds a seeded simulation of the big instance."""
+    """Exhaustive LTS of the 2-fid instance; thorough adds the 3-fid instance (model-checked in full; its LTS
+    emitted with every state-changing transition and a 1-in-40 sample of the others)."""
     files = []
-    r = tlc("fid", "FidLTS", "FidLTS_quick.cfg", workers=8, timeout=600, want_printed=True)
+    p = os.path.join(OUT, "fid-quick.lts")
+    r = tlc("fid", "FidLTS", "FidLTS_quick.cfg", workers=8, timeout=600, printed_to=p)
     if not r.ok:
         raise vlib.Inconclusive("FidTable model violates its own property %s:\n%s" % (r.violation, r.out[-3000:]))
-    p = os.path.join(OUT, "fid-quick.lts")
-    with open(p, "w") as f:
-        for e in r.printed:
-            f.write(json.dumps(e) + "\n")
     files.append(p)
     ck.add_cov(states=r.distinct, transitions=r.generated, exhaustive=True,
-               tlc_runs=[{"cfg": "FidLTS_quick.cfg", **r.summary()}])
+               tlc_runs=[{"cfg": "FidLTS_quick.cfg", "edges_emitted": r.nprinted, **r.summary()}])
     if tier == "thorough":
         r2 = tlc("fid", "FidTable", "FidTable_big.cfg", workers=16, timeout=1500)
         if not r2.ok:
             raise vlib.Inconclusive("FidTable (big) violates its own property %s:\n%s" % (r2.violation, r2.out[-3000:]))
         ck.add_cov(states=r2.distinct, transitions=r2.generated)
         ck.cov["tlc_runs"].append({"cfg": "FidTable_big.cfg", **r2.summary()})
-        r3 = tlc("fid", "FidLTS", "FidLTS_big.cfg", workers=4, timeout=900, want_printed=True,
-                 simulate="num=400", depth=40, extra=["-seed", str(vlib.seed())])
-        p = os.path.join(OUT, "fid-bigsim.lts")
-        with open(p, "w") as f:
-            for e in r3.printed:
-                f.write(json.dumps(e) + "\n")
+        p = os.path.join(OUT, "fid-mid.lts")
+        r3 = tlc("fid", "FidLTS", "FidLTS_mid.cfg", workers=8, timeout=1500, printed_to=p)
+        if not r3.ok:
+            raise vlib.Inconclusive("FidTable (mid) violates its own property %s:\n%s" % (r3.violation, r3.out[-3000:]))
         files.append(p)
-        ck.cov["tlc_runs"].append({"cfg": "FidLTS_big.cfg -simulate", "edges": len(r3.printed), "wall_s": round(r3.wall, 1)})
+        ck.add_cov(states=r3.distinct, transitions=r3.generated)
+        ck.cov["tlc_runs"].append({"cfg": "FidLTS_mid.cfg", "edges_emitted": r3.nprinted, **r3.summary()})
     return files
 
 
@@ -39,7 +36,7 @@ def _run(pid, tier, tags, level_assumptions):
     ck = Check(pid, tier, "model_checking")
     ck.assumptions = level_assumptions
     files = _lts(tier, ck)
-    nrand, depth = (300, 30) if tier == "quick" else (4000, 60)
+    nrand, depth = (300, 30) if tier == "quick" else (3000, 60)
     traces = 0
     for p in files:
         doc = harness(["fid", "-lts", p, "-random", str(nrand), "-depth", str(depth)], timeout=1500)
